@@ -31,14 +31,14 @@ EXPORT void cplx_from_tnx32_ref(const CPLX_FROM_TNX32_PRECOMP* precomp, void* r,
 EXPORT void cplx_to_tnx32_ref(const CPLX_TO_TNX32_PRECOMP* precomp, int32_t* r, const void* x) {
   static const double _2p32 = (INT64_C(1) << 32);
   const uint32_t m = precomp->m;
-  double factor = _2p32 / precomp->divisor;
+  const double divisor = precomp->divisor;  // a power of 2: the division is exact (2^32/divisor overflows for tiny divisors)
   int32_t* outre = r;
   int32_t* outim = r + m;
   const CPLX* in = x;
   // Note: this formula will only work if abs(in) < 2^32
   for (uint32_t i = 0; i < m; ++i) {
-    outre[i] = (int32_t)(int64_t)(rint(in[i][0] * factor));
-    outim[i] = (int32_t)(int64_t)(rint(in[i][1] * factor));
+    outre[i] = (int32_t)(int64_t)(rint(in[i][0] / divisor * _2p32));
+    outim[i] = (int32_t)(int64_t)(rint(in[i][1] / divisor * _2p32));
   }
 }
 
